@@ -42,10 +42,14 @@ func c17RuntimeRun(steps []c17Step) (string, error) {
 	c17Epoch++
 	ep := c17Epoch
 	// scopes: three built-in enumerations and two vendor enumerations with tags of their own (fresh per execution)
-	vtagA, vtagB := 0x540000+int((ep*4)%0xF000)+0x0800, 0x540000+int((ep*4)%0xF000)+0x0801
+	// sixteen tag numbers of its own for every execution, outside the two KMIP ranges (0x42xxxx, 0x54xxxx), so that neither
+	// an earlier execution nor the built-in registry ever shares a tag or a name with this one
+	base := 0x100000 + int(ep%0x30000)*16
+	vtagA, vtagB := base, base+1
 	scopes := []int{0x420057 /* ObjectType */, 0x42005C /* Operation */, 0x420028 /* CryptographicAlgorithm */, vtagA, vtagB}
 	var entries []c17Entry
 	tagNames := map[int]string{}
+	tagOfName := map[string]int{}
 	var maskTag int
 	var maskNames []string
 	k := uint32(0)
@@ -135,18 +139,20 @@ func c17RuntimeRun(steps []c17Step) (string, error) {
 				entries = append(entries, c17Entry{scopes[scope], v, n})
 			}
 		case "register-tag":
-			k++
-			tag := 0x540000 + int((ep*4)%0xF000) + 0x0802 + int(k%2)
-			name := fmt.Sprintf("VerifTag%dx%d", ep, k%2)
+			// three vendor tags and four names: a tag may be renamed and a name may move to another tag (the latest
+			// registration decides); only tags whose current name currently denotes them are checked below
+			tag := base + 5 + s.Scope%3
+			name := fmt.Sprintf("VerifTag%dn%d", ep, s.N%4)
 			if err := safely(func() error { ttlv.RegisterTag(name, tag); return nil }); err != nil {
 				return "runtime-register-panics", fmt.Errorf("step %d: %w", i, err)
 			}
 			tagNames[tag] = name
+			tagOfName[name] = tag
 		case "register-mask":
 			if maskTag != 0 {
 				continue
 			}
-			maskTag = 0x540000 + int((ep*4)%0xF000) + 0x0804
+			maskTag = base + 4
 			maskNames = []string{fmt.Sprintf("VerifFlag%dA", ep), fmt.Sprintf("VerifFlag%dB", ep), fmt.Sprintf("VerifFlag%dC", ep)}
 			if err := safely(func() error { ttlv.RegisterBitmask[vendorMaskA](maskTag, maskNames...); return nil }); err != nil {
 				return "runtime-register-panics", fmt.Errorf("step %d: %w", i, err)
@@ -186,6 +192,9 @@ func c17RuntimeRun(steps []c17Step) (string, error) {
 			}
 		}
 		for tag, name := range tagNames {
+			if tagOfName[name] != tag {
+				continue // the name has since been given to another tag: this tag has no name of its own until it is renamed
+			}
 			if got := ttlv.TagString(tag); got != name {
 				return "runtime-tag-name", fmt.Errorf("step %d: TagString(0x%06X) = %q, registered as %q", i, tag, got, name)
 			}
